@@ -257,6 +257,7 @@ def c17(tier_):
             execs.append(gen.gen_purity(rng, sol, apis=('cxx', 'c'), nev=8, noise=10)[0])
             execs.append(gen.gen_param_store(rng, sol, 'd', apis=('cxx', 'c'), steps=40))
     execs.append(gen.gen_c_entry_points(rng))
+    execs += [gen.gen_registry_random(rng, steps=100, apis=('cxx', 'c')) for _ in range(4 if tier_ == 'quick' else 30)]
     return run_trace_check('C17', tier_, execs, relax=('live',), level='model_checking',
         rule='the C entry points are the same actions of Masa.tla with p = d: every transition of the bounded model replayed with each double-precision call issued through the C symbol or the C++ <double> template at random; per solution purity histories and parameter-store histories with mixed C/C++ calls (memo: identical key => bit-identical value across the two interfaces; masa_get_name buffer; statuses; arrays of length 0..8); one sweep over all C evaluator symbols defined in cmasa.cpp. distinct = distinct (call, arguments) shapes',
         assumptions=COMMON_ASSUME, mc=dict(states=s, transitions=t, distinct_transitions_replayed=nu, exhaustive=True),
@@ -270,7 +271,7 @@ HEAT = [e['name'] for e in CATALOG if e['name'].startswith('heateq')]
 EULER = ['euler_1d', 'euler_2d', 'euler_3d', 'euler_transient_1d', 'euler_transient_2d', 'euler_transient_3d', 'axisymmetric_euler', 'axi_euler_transient']
 NS = ['navierstokes_2d_compressible', 'navierstokes_3d_compressible', 'axisymmetric_navierstokes_compressible', 'axi_cns_transient', 'navierstokes_4d_compressible_powerlaw']
 GRADSOLS = ['euler_1d', 'euler_2d', 'euler_3d', 'navierstokes_2d_compressible', 'navierstokes_3d_compressible', 'navierstokes_4d_compressible_powerlaw']
-ALLVAL = HEAT + EULER + NS + ['laplace_2d', 'burgers_equation', 'rans_sa', 'fans_sa_transient_free_shear', 'fans_sa_steady_wall_bounded', 'euler_chem_1d', 'sod_1d', 'cp_normal']
+ALLVAL = HEAT + EULER + NS + ['laplace_2d', 'burgers_equation', 'rans_sa', 'fans_sa_transient_free_shear', 'fans_sa_steady_wall_bounded', 'euler_chem_1d', 'sod_1d', 'cp_normal', 'radiation_integrated_intensity']
 VAL_ASSUME = COMMON_ASSUME + [
     'spec/MasaReal.java implements the real arithmetic of MasaReal.tla (45 digits); cross-checked by MC_Oracle',
     'admissible inputs: parameters drawn independently as exact doubles in the boxes of checks/gen.py (rho, p, T, nu_sa > 0; L != 0; Gamma > 1; sod mu = (Gamma-1)/(Gamma+1); euler_chem R_N2 = R_N/2; points in a bounded box, r > 0, Sod points 1e-3 away from wave fronts)',
@@ -412,8 +413,8 @@ def c09(tier_):
     na, npt = reps(tier_, (4, 2), (30, 4))
     plan = [(s, None, na, npt) for s in ALLVAL if s != 'sod_1d'] + [('sod_1d', [('source_rho', 'SS'), ('source_rho_u', 'SS')], na, npt)]
     gen.FULL_MANTISSA[0] = True      # generic 53-bit inputs: sums and products of the inputs are inexact in double
-    return value_check('C09', tier_, plan, kbits=5, all_known=True, mix=True, accstat=True,
-        rule='all solutions of C01-C08, each assignment and point evaluated in both precisions with identical (exactly representable) inputs; transport coefficients and velocity amplitudes rescaled by random decades so that different groups of terms dominate, inputs generic 53-bit doubles; each result must be finite and within 2^5 u_p mag of the 45-digit oracle value (u_d = 2^-53, u_ld = 2^-64), hence double and long double agree to double precision; and per (solution, evaluator) the median error of the long double results, in long double roundoffs, must not exceed the median error of the double results, in double roundoffs, by more than 4 bits (history variable acc of MasaTrace): long double is not limited to double accuracy.')
+    return value_check('C09', tier_, plan, kbits=6, all_known=True, mix=True, accstat=True,
+        rule='all solutions of C01-C08, each assignment and point evaluated in both precisions with identical (exactly representable) inputs; transport coefficients and velocity amplitudes rescaled by random decades so that different groups of terms dominate, inputs generic 53-bit doubles; each result must be finite and within 2^6 u_p mag of the 45-digit oracle value (u_d = 2^-53, u_ld = 2^-64), hence double and long double agree to double precision; and per (solution, evaluator) the median error of the long double results, in long double roundoffs, must not exceed the median error of the double results, in double roundoffs, by more than 4 bits (history variable acc of MasaTrace): long double is not limited to double accuracy.')
 
 
 def c20(tier_):
@@ -459,8 +460,10 @@ def c13(tier_):
     for n in names:
         for _ in range(4 if tier_ == 'quick' else 40):
             strings.append((decorate(n), True, 'random'))
-        strings.append((n + rng.choice('_.x1'), False, 'random-negative'))
+        strings.append((n + rng.choice('_.x1\r\x11'), False, 'random-negative'))
         strings.append((n[:-1], False, 'prefix'))
+        k = rng.randrange(len(n))
+        strings.append((n[:k] + rng.choice('\r\n\x01\x10\x19\x1f') + n[k:], False, 'control-character'))
     rng.shuffle(strings)
     execs = []
     chunk = 400
@@ -475,6 +478,20 @@ def c13(tier_):
                 S.append(['list', p, 'cxx'])
         S.append(['list', 'd', 'cxx']); S.append(['list', 'ld', 'cxx'])
         execs.append(Execution(S, variant='exc', label='names'))
+    # the handle string is used verbatim -- through both interfaces: handles that differ only by case, a dash,
+    # a leading/trailing blank are distinct keys; each is initialised, listed and selected again
+    for _ in range(4 if tier_ == 'quick' else 20):
+        hs = ['run A', 'run A ', ' run A', 'Run A', 'run-A', 'runA', 'run  A']
+        rng.shuffle(hs)
+        S = []
+        for i, h in enumerate(hs):
+            S.append(['init', 'd', rng.choice(['cxx', 'c']), h, rng.choice(NONFIX)])
+        S.append(['list', 'd', 'cxx'])
+        for h in hs:
+            S.append(['select', 'd', rng.choice(['cxx', 'c']), h]); S.append(['name', 'd', rng.choice(['cxx', 'c'])])
+        S.append(['select', 'd', 'c', 'run a'])      # unknown: fatal, nothing changes
+        S.append(['list', 'd', 'c'])
+        execs.append(Execution(S, variant='exc', label='verbatim-handles'))
     # a sample of the negatives in the exit() build: the process must end with status 1 and register nothing
     neg = [s for s in strings if not s[1]]
     for st, ok, kind in neg[:60 if tier_ == 'quick' else 600]:
